@@ -1,8 +1,9 @@
 """Per-function verification driver and modular call rule."""
 import ast
+import os
 import time
 import z3
-from .core import (Val, VNone, VTrue, VFalse, VInt, VStr, VBool, VRef, I, B, S, ArrIV, ArrVB, ArrVV, IsSub, ClassName,
+from .core import (tkey, Val, VNone, VTrue, VFalse, VInt, VStr, VBool, VRef, I, B, S, ArrIV, ArrVB, ArrVV, IsSub, ClassName,
                    TYPEBASE, ALLOC_BASE, HOST_CLASS_BASE, Unsupported, PathAbort, Explorer, State, Frame, LogEntry,
                    SymCallable, ClassTable, Failure)
 from .interp_base import InterpBase, PyRaise, ReturnEx, BreakEx, ContinueEx
@@ -92,7 +93,7 @@ class Interp(LibMixin, CallMixin, StmtMixin, ExprMixin, InterpBase):
                     ev = self.make_param("%s_%d" % (name, i), ep)
                     ctx.assume(z3.Select(z3.Select(st.lel, r), i) == ev)
             elif p.elem is not None:
-                st.ghost.setdefault("elem_sorts", {})[str(base)] = p.elem
+                st.ghost.setdefault("elem_sorts", {})[tkey(base)] = p.elem
         elif p.kind == "seq":
             r = self.fresh_ref(name)
             base = VRef(r)
@@ -106,7 +107,7 @@ class Interp(LibMixin, CallMixin, StmtMixin, ExprMixin, InterpBase):
             if p.elem is None:
                 st.ghost.setdefault("host_data_dicts", []).append(base)
             elif hasattr(p.elem, "kind"):
-                st.ghost.setdefault("dict_value_sorts", {})[str(base)] = p.elem
+                st.ghost.setdefault("dict_value_sorts", {})[tkey(base)] = p.elem
                 st.ghost.setdefault("agent_dicts", []).append(base)
         elif p.kind == "frame":
             r = self.fresh_ref(name)
@@ -116,7 +117,7 @@ class Interp(LibMixin, CallMixin, StmtMixin, ExprMixin, InterpBase):
             r = self.fresh_ref(name)
             base = VRef(r)
             ctx.assume(z3.Select(st.typeof, r) == t.id("function"))
-            st.ghost.setdefault("sym_callables", {})[str(z3.simplify(base))] = SymCallable(name, p.spec)
+            st.ghost.setdefault("sym_callables", {})[tkey(base)] = SymCallable(name, p.spec)
         else:
             raise Unsupported("param kind %s" % p.kind)
         if p.nullable:
@@ -156,11 +157,48 @@ class Interp(LibMixin, CallMixin, StmtMixin, ExprMixin, InterpBase):
             # an existing value declared to be a callable with the given behaviour (e.g. a plugin class)
             conds.append(z3.And(Val.is_VRef(v), Val.r(v) > 0, Val.r(v) < st.next_id,
                                 z3.Select(st.typeof, Val.r(v)) == t.id("function")))
-            st.ghost.setdefault("sym_callables", {})[str(z3.simplify(v))] = SymCallable("callable", p.spec)
+            st.ghost.setdefault("sym_callables", {})[tkey(v)] = SymCallable("callable", p.spec)
         for c_ in conds:
             ctx.assume(c_)
         if p.kind == "obj" and p.inv and not p.nullable:
             self.assume_invariant(p.cls, v, p.subclasses)
+
+    def arg_sort_goal(self, v, p):
+        """What a caller owes for an argument of declared sort p: the type part only (class invariants are
+        visible-state assumptions).  None: nothing to show."""
+        st, t = self.st, self.table
+        if p is None or p.kind in ("val", "any", "attrval", "callable", "fresh"):
+            return None
+        isref = lambda *names: z3.And(Val.is_VRef(v), z3.Or(*[z3.Select(st.typeof, Val.r(v)) == t.id(n) for n in names]))
+        if p.kind == "int":
+            g = Val.is_VInt(v)
+        elif p.kind == "str":
+            g = Val.is_VStr(v)
+        elif p.kind == "bool":
+            g = Val.is_VBool(v)
+        elif p.kind == "float":
+            g = Val.is_VFloat(v)
+        elif p.kind == "none":
+            g = Val.is_VNone(v)
+        elif p.kind == "list":
+            g = isref("list")
+        elif p.kind == "tuple":
+            g = isref("tuple")
+        elif p.kind == "seq":
+            g = isref("list", "tuple", "set", "frozenset")
+        elif p.kind in ("dict", "strdict"):
+            g = isref("dict", "OrderedDict")
+        elif p.kind == "frame":
+            g = isref("frame")
+        elif p.kind == "hostobj":
+            g = z3.And(Val.is_VRef(v), z3.Select(st.typeof, Val.r(v)) >= HOST_CLASS_BASE)
+        elif p.kind == "obj":
+            names = list(p.subclasses) if p.subclasses else [p.cls]
+            ids = [t.ids[s_] if s_ in t.ids else self.index.find_class(s_).cid for s_ in names]
+            g = z3.And(Val.is_VRef(v), z3.Or(*[z3.Select(st.typeof, Val.r(v)) == k for k in ids]))
+        else:
+            return None
+        return z3.Or(Val.is_VNone(v), g) if p.nullable else g
 
     def reassume_invariants(self):
         """After a coarse havoc the class invariants of the objects this path knows hold again (visible states);
@@ -294,6 +332,14 @@ class Interp(LibMixin, CallMixin, StmtMixin, ExprMixin, InterpBase):
         S_ = SpecCtx(self, c, bound, old)
         S_.at_call = True
         S_.proving = True
+        # the callee's body is verified for arguments of the declared sorts: the caller owes them
+        if ARG_SORTS:
+            for nm, p in c.params.items():
+                if nm in bound and not (fi.name == "__init__" and nm == "self"):
+                    g = self.arg_sort_goal(bound[nm], p)
+                    if g is not None:
+                        self.ctx.oblige(self.obl_name("PRE", "%s/arg:%s" % (anchor, nm)), "PRE", g,
+                                        detail="argument `%s` of %s has the declared sort %s" % (nm, c.key, p.kind))
         for cl in c.requires:
             if getattr(cl, "new_object_fact", False) and fi.name == "__init__":
                 self.ctx.assume(cl.fn(S_))
@@ -404,6 +450,9 @@ class FunctionResult:
         self.exits = {"return": 0, "raise": 0}
         self.vacuous = False
         self.canary_ok = None
+
+
+ARG_SORTS = os.environ.get("PYVC_ARGSORT", "0") == "1"
 
 
 def verify_contract(index, table, contracts, c, axioms, timeout_ms=10000, max_paths=4000):
